@@ -382,7 +382,9 @@ StripSums(stack, k, y0, hf) ==
              t == stack[k].t
              q11 == RSub(q[1][1], RDiv(RMul(q[1][2], q[1][2]), q[2][2]))
              q16 == RSub(q[1][3], RDiv(RMul(q[1][2], q[2][3]), q[2][2]))
-             a16 == RAdd(RAbs(q[1][3]), RAbs(RDiv(RMul(q[1][2], q[2][3]), q[2][2])))
+             (* magnitude of the terms Qr16 is made of: the ply angle reaches the code as a rounded double and the rotation
+                couples every entry of Q into Q16 (LaminateOps!QBarAbs), also where Q16 vanishes exactly *)
+             a16 == RMul(QBarAbs(stack[k])[1][3], RAdd(ROne, RAbs(RDiv(q[1][2], q[2][2]))))
              q66 == RSub(q[3][3], RDiv(RMul(q[2][3], q[2][3]), q[2][2]))
              y == RAdd(y0, RDiv(t, Two))                       \* ply centre from the first face
              z == RSub(y, RDiv(hf, Two))                        \* ... from the mid-plane
